@@ -155,6 +155,19 @@ def run_engines(ctx, ms, want, info, rng, engines=("factored", "local", "public"
             got["LocalInference"] = float(eng.model.total)
         if "public" in engines:
             got["public_inference.estimate_total"] = float(public_inference.estimate_total(list(meas)))
+            if ms and max(sizes) <= 16:
+                # the whole PublicInference.estimate path (7 public records): the weights carry the estimated total
+                k = 7
+                pub = Dataset(pd.DataFrame({a: [(3 * j + i) % n for j in range(k)] for i, (a, n) in enumerate(zip(attrs, sizes))}), dom)
+                # (the line search itself is C19's subject: it is replaced by "uniform weights with the total it is handed")
+                orig = public_inference.entropic_mirror_descent
+                public_inference.entropic_mirror_descent = lambda lg, x0, total, iters=250: np.asarray(x0, dtype=float) * total / np.sum(x0)
+                try:
+                    with np.errstate(all="ignore"):
+                        res = PublicInference(pub).estimate(list(meas), total=None)
+                finally:
+                    public_inference.entropic_mirror_descent = orig
+                got["total handed to the reweighting by PublicInference.estimate"] = float(np.asarray(res.weights, dtype=float).sum())
     except Exception as ex:
         ctx.violation("total estimation raised %r" % ex, info, {"kind": "crash"})
         return
